@@ -83,9 +83,11 @@ func (e *env) usageObj(us usageSpec) map[string]any {
 
 func (e *env) thingObj(t thingSpec) map[string]any {
 	md := map[string]any{"name": t.Name}
+	ls := map[string]any{"thing-name": t.Name}
 	if t.Grp != "" {
-		md["labels"] = map[string]any{"grp": t.Grp}
+		ls["grp"] = t.Grp
 	}
+	md["labels"] = ls
 	if t.Owner != "" {
 		md["ownerReferences"] = e.ctrlRef(t.Owner)
 	}
@@ -107,6 +109,8 @@ type op struct {
 	Version string     `json:"version,omitempty"`
 	Policy  string     `json:"policy,omitempty"`
 	Dry     bool       `json:"dryRun,omitempty"`
+	// Collection: the delete arrives as a deletecollection request (kubectl delete --all, DeleteAllOf)
+	Collection bool `json:"collection,omitempty"`
 }
 
 func (o op) String() string {
@@ -152,6 +156,16 @@ func (e *env) do(c *sim.Client, o op) error {
 		if o.Dry {
 			opts = append(opts, client.DryRunAll)
 		}
+		if o.Collection && o.Kind == "deleteThing" {
+			// a deletecollection request that reaches (only) this object: selected by a label every
+			// Thing of that name carries
+			var dopts []client.DeleteAllOfOption
+			dopts = append(dopts, client.MatchingLabels{"thing-name": o.Name})
+			do := &client.DeleteOptions{}
+			do.ApplyOptions(opts)
+			dopts = append(dopts, &client.DeleteAllOfOptions{DeleteOptions: *do})
+			return c.DeleteAllOf(bg, u, dopts...)
+		}
 		return c.Delete(bg, u, opts...)
 	}
 	panic("unknown op " + o.Kind)
@@ -184,6 +198,9 @@ func dt(n, ver, pol string) op { return op{Kind: "deleteThing", Name: n, Version
 func dtDry(n, ver, pol string) op {
 	return op{Kind: "deleteThing", Name: n, Version: ver, Policy: pol, Dry: true}
 }
+func dtAll(n, ver, pol string) op {
+	return op{Kind: "deleteThing", Name: n, Version: ver, Policy: pol, Collection: true}
+}
 func du(n, ver, pol string) op { return op{Kind: "deleteUsage", Name: n, Version: ver, Policy: pol} }
 
 var baseThings = []thingSpec{
@@ -202,7 +219,7 @@ func scenarios() []scenario {
 		out = append(out, scenario{Name: "single-ref/" + uv + "/" + pol, Things: baseThings, Steps: []step{
 			sOp(dtDry("t3", "v1", pol)), // nobody uses t3
 			sOp(cu(u)), sRec("u1"), sRec("u1"),
-			sOp(dt("t1", "v1", pol)), sOp(dt("t1", "v2", pol)), sOp(dt("t2", "v1", pol)),
+			sOp(dt("t1", "v1", pol)), sOp(dt("t1", "v2", pol)), sOp(dtAll("t1", "v1", pol)), sOp(dt("t2", "v1", pol)),
 			sOp(du("u1", uv, pol)), sRec("u1"), sGC(), sRec("u1"),
 			sOp(dt("t1", "v2", pol)),
 		}})
@@ -372,7 +389,7 @@ func genPlan(r *rand.Rand) *plan {
 			var o op
 			switch x := r.IntN(10); {
 			case x < 5:
-				o = op{Kind: "deleteThing", Name: pick(r, []string{"t1", "t1", "t2", "t3"}), Version: pick(r, vers), Policy: pick(r, policies), Dry: r.IntN(3) == 0}
+				o = op{Kind: "deleteThing", Name: pick(r, []string{"t1", "t1", "t2", "t3"}), Version: pick(r, vers), Policy: pick(r, policies), Dry: r.IntN(3) == 0, Collection: r.IntN(5) == 0}
 			case x < 8:
 				o = op{Kind: "deleteUsage", Name: pick(r, all).Name, Version: pick(r, []string{"v1beta1", "v1alpha1"}), Policy: pick(r, policies)}
 			case x < 9 && !t4:
